@@ -509,6 +509,9 @@ class Session:
                     except Exception as e:
                         self.fail("C18", "verify-after-fault", {"path": p, "exc": type(e).__name__})
                     self.c01_live = False   # values downstream of the failed update are legitimately stale
+                elif impl["exc"] == "ok" and impl.get("fault_fired"):
+                    # the container did raise, and the assignment returned normally
+                    self.fail("C18", "fault-swallowed-or-changed", {"path": p, "exc": "ok", "k": faulted})
                 elif impl["exc"] == "ok":
                     stats["faults_not_reached"] += 1
                 elif impl["exc"] not in ("KeyError", "IndexError", "TypeError", "AttributeError", "ZeroDivisionError", "OverflowError", "ValueError"):
@@ -723,7 +726,10 @@ def gen_history(rng, family, sess, maxops):
         kind = rng.choices(kinds, weights)[0]
         if kind == "fault":
             k = rng.randint(0, 4)
-            sess.step({"op": "fault", "k": k})
+            fo = {"op": "fault", "k": k}
+            if rng.random() < 0.5:
+                fo["exc"] = rng.choice(["StopIteration", "KeyError", "RuntimeError", "LookupError", "ArithmeticError", "AttributeError"])
+            sess.step(fo)
             kind = rng.choice(["set", "set", "setexpr", "iop"])
             op = draw(rng, g, sess, kind, pick)
             if op is None:
@@ -870,6 +876,28 @@ def scenario_c13_container(hist_id, stats, failures):
                          "known": None})
 
 
+def collision_corpus():
+    """task ids whose hashes collide (hash(-1) == hash(-2), hash(1) == hash(True)): two different tasks triggered by one
+    assignment must both run, whatever a traversal uses to remember what it has visited"""
+    M = lambda k: ["d", ["i", "m"], ["i", k]]
+    X, T = ["d", ["i", "x"]], ["d", ["i", "t"]]
+    yield [{"op": "reset"},
+           {"op": "container", "label": "d", "value": {"d": [["x", 1], ["m", {"d": [[-1, 0], [-2, 0], [1, 0], [2, 0]]}], ["t", 0]]}},
+           {"op": "setexpr", "path": M(-1), "expr": ["bin", "Mul", ["ref", X], ["lit", 2]]},
+           {"op": "setexpr", "path": M(-2), "expr": ["bin", "Add", ["ref", X], ["lit", 1]]},
+           {"op": "setexpr", "path": M(1), "expr": ["bin", "Sub", ["ref", X], ["lit", 1]]},
+           {"op": "setexpr", "path": T, "expr": ["bin", "Add", ["ref", M(-1)], ["ref", M(-2)]]},
+           {"op": "set", "path": X, "value": 5}, {"op": "set", "path": X, "value": 7},
+           {"op": "set", "path": M(-2), "value": 0}, {"op": "set", "path": X, "value": 9}]
+    # the same with the definitions made in the other order
+    yield [{"op": "reset"},
+           {"op": "container", "label": "d", "value": {"d": [["x", 1], ["m", {"d": [[-1, 0], [-2, 0]]}], ["t", 0]]}},
+           {"op": "setexpr", "path": T, "expr": ["bin", "Add", ["ref", M(-1)], ["ref", M(-2)]]},
+           {"op": "setexpr", "path": M(-2), "expr": ["bin", "Add", ["ref", X], ["lit", 1]]},
+           {"op": "setexpr", "path": M(-1), "expr": ["bin", "Mul", ["ref", X], ["lit", 2]]},
+           {"op": "set", "path": X, "value": 5}, {"op": "set", "path": X, "value": 7}]
+
+
 def c13_corpus():
     """the same setter (same name, same references) generated again after the definitions changed"""
     X, Y, W_, Z = (["d", ["i", k]] for k in "xywz")
@@ -884,6 +912,63 @@ def c13_corpus():
     yield base + [g(3), {"op": "setexpr", "path": Y, "expr": ["bin", "Sub", ["ref", X], ["lit", 1]]}, g(4)]
     yield base + [g(3), {"op": "setexpr", "path": Z, "expr": ["bin", "Add", ["ref", X], ["lit", 10]]}, g(4),
                   {"op": "set", "path": Z, "value": 0}, g(5)]
+
+
+def scenario_lookalike_replacement(hist_id, stats, failures):
+    """a definition replaced by another one that PRINTS the same (constants are printed with str(): 2, '2', np.int8(2)) but
+    means something else: afterwards the manager has to behave like a fresh one holding only the new definition"""
+    import numpy as np
+    import xdeps
+    for old_c, new_c, nval in [(2, "2", 4), ("2", 2, 4), (2, np.int8(2), 5), (np.float32(0.5), 0.5, 3), (3, 3.0, 2) if False else (1, True, 7)]:
+        outs = []
+        for with_history in (True, False):
+            m = xdeps.Manager()
+            raw = {"n": 3, "r": None, "q": None}
+            v = m.ref(raw, "v")
+            try:
+                if with_history:
+                    v["r"] = v["n"] * old_c
+                v["r"] = v["n"] * new_c
+                v["q"] = v["r"] * 1
+                v["n"] = nval
+                outs.append((repr(raw["r"]), type(raw["r"]).__name__, repr(raw["q"])))
+            except Exception as e:
+                outs.append(("raised", type(e).__name__, ""))
+        stats["lookalike_replacements"] = stats.get("lookalike_replacements", 0) + 1
+        if outs[0] != outs[1]:
+            for prop in ("C03", "C01"):
+                failures.append({"property": prop, "kind": "replaced-definition-still-in-force", "hist": hist_id, "op_index": 0,
+                                 "detail": {"old_constant": repr(old_c), "new_constant": repr(new_c), "with_history": outs[0],
+                                            "fresh": outs[1]}, "known": None})
+            return
+
+
+def scenario_two_managers(hist_id, stats, failures):
+    """two managers alive in one process, containers with the same labels and keys, different definitions; both frozen;
+    the same location assigned on both: each has to update ITS OWN dependants (nothing may be shared between managers
+    through module- or class-level state)"""
+    import xdeps
+    for frozen in (True, False):
+        ms = []
+        for mul in (2, 5):
+            m = xdeps.Manager()
+            raw = {"x": 1.0, "y": 0.0, "z": 0.0}
+            a = m.ref(raw, "a")
+            a["y"] = a["x"] * mul
+            a["z"] = a["y"] + 1
+            if frozen:
+                m.freeze_tree()
+            ms.append((m, a, raw, mul))
+        for rnd, v in enumerate((3.0, 10.0, 3.0)):
+            for m, a, raw, mul in ms:
+                a["x"] = v
+                if raw["y"] != v * mul or raw["z"] != v * mul + 1:
+                    for prop in ("C17", "C01", "C12") if frozen else ("C01", "C12"):
+                        failures.append({"property": prop, "kind": "managers-share-state", "hist": hist_id, "op_index": 0,
+                                         "detail": {"frozen": frozen, "round": rnd, "factor": mul, "x": v, "got": dict(raw)},
+                                         "known": None})
+                    return
+    stats["two_manager_scenarios"] = stats.get("two_manager_scenarios", 0) + 1
 
 
 def c17_corpus():
@@ -1147,12 +1232,20 @@ def main():
             hid += 1
             stats["histories"] += 1
     elif a.corpus and a.family == "c17":
+        scenario_two_managers(hid, stats, failures); hid += 1
         for ops in c17_corpus():
             sess = replay_ops(ops, hid, stats, failures, a.family)
             lines.extend(sess.lines)
             hid += 1
             stats["histories"] += 1
     elif a.corpus:
+        for ops in collision_corpus():
+            sess = replay_ops(ops, hid, stats, failures, a.family)
+            lines.extend(sess.lines)
+            hid += 1
+            stats["histories"] += 1
+        scenario_two_managers(hid, stats, failures); hid += 1
+        scenario_lookalike_replacement(hid, stats, failures); hid += 1
         scenario_d1(hid, lines, stats, failures); hid += 1
         scenario_d8(hid, stats, failures); hid += 1
         for n in [int(x) for x in a.chains.split(",") if x]:
